@@ -16,7 +16,10 @@ OBLIGATIONS = [
     ob("openfile", ["K_OPEN"], ["OpenFile", "NewRecord", "WrRecHeader"], "arbitrary CPU id/segment/granularity/PC", unwind=10),
     ob("closefile", ["K_CLOSE"], ["CloseFile", "NewRecord"], "arbitrary I-state, with and without entry address", unwind=10),
     ob("retract", ["K_RETRACT"], ["RetractWords"], "1..8 words, arbitrary I-state", unwind=10),
+    dict(name="writecode", src="writecode.c", include=["as.c"], units=["asmdef.c"], stubs=["diag.c", "fmt_off.c"], defs=["STRINGSIZE=16"], unwind=6,
+         functions=["as.c:WriteCode"], bounds="any PC/phase/limit, CodeLen 0..65536, reserve/emit, code output on/off, any segment",
+         assumes=["NewRecord/WriteBytes/BookKeeping replaced by call recorders", "not inside a structure definition"]),
 ]
 META = dict(outside=["relocation records (WrPatches)", "that each target's MakeCode fills BAsmCode correctly (C09/C14)",
-                     "WriteCode in as.c (separate obligation, pending)"],
+                     "WriteCode inside STRUCT/UNION definitions"],
             assumptions=["malloc never fails", "little-endian host (HostBigEndian == 0)"])
